@@ -123,6 +123,57 @@ def normalise_items(items):
     return out
 
 
+def corpus_events(tdir):
+    """(D) the maintainers' own declarations: build /repo's workspace (test suite, examples, dummy) with the hook on and
+    return one Trace_Api event per recorded expansion. Nothing in /repo is written (own target dir)."""
+    import glob
+    import shutil
+    from .common import REPO
+    tgt = os.path.join(WORK, "target_corpus")
+    hook = os.path.join(tdir, "corpus_hook.ndjson")
+    env = {**os.environ, "CARGO_TARGET_DIR": tgt, "NUTYPE_VERIF_TRACE": hook, "CARGO_NET_OFFLINE": "true"}
+    env.pop("RUSTFLAGS", None)
+
+    def build():
+        if os.path.exists(hook):
+            os.remove(hook)
+        p = subprocess.run(["cargo", "test", "--workspace", "--no-run", "--offline", "--all-features"], cwd=REPO, env=env,
+                           stdout=subprocess.PIPE, stderr=subprocess.STDOUT, text=True)
+        return p
+    # force re-expansion of the workspace members (the hook's environment variable is invisible to cargo's fingerprints)
+    meta = subprocess.run(["cargo", "metadata", "--offline", "--no-deps", "--format-version", "1"], cwd=REPO, env=env,
+                          stdout=subprocess.PIPE, stderr=subprocess.PIPE, text=True)
+    names = [pk["name"] for pk in json.loads(meta.stdout)["packages"]] if meta.returncode == 0 else []
+    for nm in names:
+        for fp in glob.glob(os.path.join(tgt, "debug", ".fingerprint", nm.replace("-", "_") + "-*")) + glob.glob(os.path.join(tgt, "debug", ".fingerprint", nm + "-*")):
+            shutil.rmtree(fp, ignore_errors=True)
+    p = build()
+    n = sum(1 for _ in open(hook)) if os.path.exists(hook) else 0
+    if p.returncode == 0 and n < 100:
+        shutil.rmtree(tgt, ignore_errors=True)
+        p = build()
+        n = sum(1 for _ in open(hook)) if os.path.exists(hook) else 0
+    if p.returncode != 0:
+        raise ToolError("the workspace of the repository does not build with --all-features (hook on):\n" + p.stdout[-2000:])
+    if n < 100:
+        raise ToolError("the hook recorded only %d expansions of the repository's own declarations" % n)
+    ana = build_tool("vanalyse", "vanalyse")
+    items_path = os.path.join(tdir, "corpus_items.ndjson")
+    subprocess.run([ana, hook, items_path], check=True)
+    events, index = [], []
+    for line in open(items_path):
+        o = json.loads(line)
+        if not o.get("ok"):
+            continue
+        m = re.search(r"(pub\s*(\([^)]*\))?)?\s*struct\b", o["def"])
+        vis = (m.group(1) or "").replace(" ", "") if m else ""
+        cfg = {"d": "corpus%03d" % len(events), "type": o["type"], "vis": vis, "new_unchecked": bool(re.search(r"\bnew_unchecked\b", str(o["attrs"]))),
+               "feature_new_unchecked": True}
+        events.append({"d": cfg["d"], "cfg": cfg, "items": normalise_items(o["items"])})
+        index.append((cfg["d"], o))
+    return events, index
+
+
 def check_C05():
     t = Timer()
     q = tier() == "quick"
@@ -244,6 +295,10 @@ def check_C05():
         index.append((cfg["d"], o))
     if len(events) < len(cfgs) // 2:
         raise ToolError("only %d of %d expansions were recorded by the hook" % (len(events), len(cfgs)))
+    n_generated = len(events)
+    cev, cidx = corpus_events(tdir)
+    events += cev
+    index += cidx
     tp = os.path.join(tdir, "trace.ndjson")
     with open(tp, "w") as f:
         for e in events:
@@ -257,10 +312,11 @@ def check_C05():
     cov = {"states": ra.distinct + rd.distinct + tr.distinct, "transitions": ra.generated + rd.generated,
            "traces_validated_against_impl": summary["events"],
            "attack_programs": n_att, "positive_controls": len([1 for k in files if meta[k][1] == "control"]),
-           "expansions_analysed": len(events), "evaluations": n_att + len(events), "distinct_nontrivial": n_att + len(events),
+           "expansions_analysed": len(events), "expansions_of_generated_declarations": n_generated,
+           "expansions_of_the_repository_own_declarations": len(cev), "evaluations": n_att + len(events), "distinct_nontrivial": n_att + len(events),
            "rule": "TLC checks on the design model that no emitted item offers a bypass capability and enumerates (configuration, attack) pairs; each attack is a "
                    "program that must fail to compile (with a compiling positive control per configuration); the expansions of the same and of the MC_Decl "
-                   "declarations, recorded by the verif_hooks hook and parsed by a syn analyser into capability records, are validated by TLC against the rules",
+                   "declarations - and of every declaration in the repository's own test suite and examples (workspace built with --all-features) - recorded by the verif_hooks hook and parsed by a syn analyser into capability records, are validated by TLC against the rules",
            "samples": [{"attack": meta[k][1], "program": files[k].splitlines()[-1]} for k in sorted(files)[1:3]],
            "limit": "'for all client programs' is approximated by the catalogue plus the structural argument (no capability, no bypass)",
            "exhaustive": False}
